@@ -225,6 +225,14 @@ Theorem C16_bridge_vine_init :
 Proof. repeat split; reflexivity. Qed.
 Print Assumptions C16_bridge_vine_init.
 
+(* the constructor call these bindings denote IS Spec.VineSerial.new_vine (the model C14_rest.v / serialrestgen use for cls(vine_type)) *)
+Theorem C16_bridge_vine_init_new_vine : forall (args : list Cop.Model.Lifecycle.jv) (kw : list (string * Cop.Model.Lifecycle.jv)),
+  init_of_attrs gen_vine_init_names gen_vine_init_required gen_vine_init_attrs args kw = Cop.Spec.VineSerial.new_vine args kw.
+Proof.
+  intros args kw. destruct C16_bridge_vine_init as (-> & -> & ->). apply init_of_attrs_new_vine.
+Qed.
+Print Assumptions C16_bridge_vine_init_new_vine.
+
 Theorem C16_bridge_vine_fit_state : forall (out : fit_outcome) (self : vobj),
   gen_vine_fit_state out self = vine_fit_state out self.
 Proof. intros out self. destruct out; reflexivity. Qed.
